@@ -7,6 +7,6 @@
 namespace Unyt.Ref
 
 /-- C02: rows of the unit table whose value is outside its reference class -/
-def exclC02 : List String := ["nmi", "kt", "Tsun", "Mearth", "mp"]
+def exclC02 : List String := ["Tsun", "Mearth", "mp"]
 
 end Unyt.Ref
